@@ -8,6 +8,10 @@
  * All environment nondeterminism (getter results, allocation / transmit faults, clock advances) is a
  * deterministic function of g_cfg and the ledger counters, so a counterexample is fully described by the
  * harness's named input record and replays natively.
+ *
+ * Clock (assumption A2): the clock is arbitrary between calls into the core and does not advance during one
+ * call; seconds and milliseconds derive from the same instant.  Clock reads are therefore pure (no ghost
+ * writes), which keeps contracts of clock-reading functions free of ledger havoc when they are replaced.
  */
 #ifndef V_GHOST_H
 #define V_GHOST_H
@@ -32,11 +36,12 @@ void v_assume_fail(const char *expr, const char *file, int line);
 #define V_MTU_MAX 9216u
 #define V_NAME_MAX 40u      /* host name / SSID bytes the platform may hold (core clamps to 32) */
 #define V_ICON_CAP 48u      /* bytes of icon / friendly-name content the model carries          */
-#define V_NCLK 6u
+#define V_NCLK 12u
 
 /* Spec functions are single return expressions (no loops, no local assignments): DFCC instruments every
  * assignment of every function it sees, and looping spec functions multiplied symex time by 10-30x. */
 #define V_REP6(F) F(0) F(1) F(2) F(3) F(4) F(5)
+#define V_REP12(F) V_REP6(F) F(6) F(7) F(8) F(9) F(10) F(11)
 #define V_REP16(F) F(0) F(1) F(2) F(3) F(4) F(5) F(6) F(7) F(8) F(9) F(10) F(11) F(12) F(13) F(14) F(15)
 #define V_REP128(F) F(0) F(1) F(2) F(3) F(4) F(5) F(6) F(7) F(8) F(9) F(10) F(11) F(12) F(13) F(14) F(15) F(16) F(17) F(18) F(19) F(20) F(21) F(22) F(23) F(24) F(25) F(26) F(27) F(28) F(29) F(30) F(31) F(32) F(33) F(34) F(35) F(36) F(37) F(38) F(39) F(40) F(41) F(42) F(43) F(44) F(45) F(46) F(47) F(48) F(49) F(50) F(51) F(52) F(53) F(54) F(55) F(56) F(57) F(58) F(59) F(60) F(61) F(62) F(63) F(64) F(65) F(66) F(67) F(68) F(69) F(70) F(71) F(72) F(73) F(74) F(75) F(76) F(77) F(78) F(79) F(80) F(81) F(82) F(83) F(84) F(85) F(86) F(87) F(88) F(89) F(90) F(91) F(92) F(93) F(94) F(95) F(96) F(97) F(98) F(99) F(100) F(101) F(102) F(103) F(104) F(105) F(106) F(107) F(108) F(109) F(110) F(111) F(112) F(113) F(114) F(115) F(116) F(117) F(118) F(119) F(120) F(121) F(122) F(123) F(124) F(125) F(126) F(127)
 
@@ -61,10 +66,8 @@ struct v_cfg {
     uint8_t  hwid[64];       size_t hwid_len;
     uint32_t alloc_fail_mask;      /* bit k set: the k-th allocation (mod 32) returns NULL */
     uint32_t send_fail_mask;       /* bit k set: the k-th transmit (mod 32) is refused      */
-    uint64_t clk_s0;               /* initial clock, seconds                                 */
-    uint16_t clk_frac0;            /* initial milliseconds within the second (< 1000)        */
-    uint32_t clk_adv_s[V_NCLK];    /* advance before the k-th read (mod V_NCLK), seconds     */
-    uint16_t clk_frac[V_NCLK];     /* ms-in-second after that advance                        */
+    uint64_t clk_s0;               /* the instant of this call, seconds (arbitrary: time passes BETWEEN calls) */
+    uint16_t clk_frac0;            /* milliseconds within that second (< 1000)                                   */
 };
 
 /* ---- ledger: what the core did to its environment ------------------------------------------------ */
@@ -85,7 +88,6 @@ struct v_led {
     uint32_t sleep_calls;
     uint32_t sleep_last;
     uint32_t sleep_at_tx;    /* tx_attempts value when the last sleep happened      */
-    uint32_t clk_reads;
     uint64_t clk_s;  uint16_t clk_ms_frac;  uint64_t clk_ms;   /* clk_ms = clk_s*1000 + clk_ms_frac, computed once per advance */
     /* last lltd_port_memcpy */
     const void *cpy_src; void *cpy_dst; size_t cpy_n;
@@ -93,6 +95,7 @@ struct v_led {
     void    *tx_buf;  size_t tx_req;
     /* periodic hello recording (C12) */
     uint32_t hello_periodic;
+    void    *hello_ni;        /* interface the last periodic Hello was sent on */
     /* large-TLV payload witness (C08) */
     uint8_t  pay_byte; uint8_t pay_byte_valid;
     /* Hello decoder results (C02/C04), filled by v_frame_ok_hello */
@@ -117,6 +120,10 @@ struct v_req {
     ethernet_address_t mapper_real, mapper_apparent;
     uint16_t mapper_seq;
     uint8_t  kind;            /* which sender is being proved: V_K_*  */
+    /* Emit under proof: when set, Probe/Train/ACK frames are checked against the descriptors of this frame */
+    const uint8_t *emit_frame; uint32_t emit_n;
+    uint32_t tx_base;         /* g_led.tx_attempts when the sender under proof was entered */
+    uint32_t sleep_base;      /* g_led.sleep_calls at that point */
 };
 extern struct v_req g_req;
 
@@ -133,6 +140,9 @@ static inline bool v_mac_eq(const uint8_t *a, const uint8_t *b) {
 static inline bool v_mac_bcast(const uint8_t *a) {
     return a[0] == 0xFF && a[1] == 0xFF && a[2] == 0xFF && a[3] == 0xFF && a[4] == 0xFF && a[5] == 0xFF;
 }
+static inline bool v_mac_eq_at(const uint8_t *f, size_t off, const uint8_t *m) {
+    return f[off] == m[0] && f[off + 1] == m[1] && f[off + 2] == m[2] && f[off + 3] == m[3] && f[off + 4] == m[4] && f[off + 5] == m[5];
+}
 static inline uint16_t v_be16(const uint8_t *p) { return (uint16_t)(((uint16_t)p[0] << 8) | p[1]); }
 static inline uint32_t v_be32(const uint8_t *p) {
     return ((uint32_t)p[0] << 24) | ((uint32_t)p[1] << 16) | ((uint32_t)p[2] << 8) | (uint32_t)p[3];
@@ -145,8 +155,7 @@ static inline bool v_cfg_ok(const struct v_cfg *c) {
     if (c->icon_size > V_ICON_CAP || c->fname_size > V_ICON_CAP) return false;
     if (c->hwid_len > 64) return false;
     if (c->clk_s0 >= ((uint64_t)1 << 40) || c->clk_frac0 >= 1000) return false;
-#define V_CLK_OK_(i) && c->clk_adv_s[i] <= 200000u && c->clk_frac[i] < 1000
-    return true V_REP6(V_CLK_OK_);
+    return true;
 }
 
 void v_env_reset(void);       /* zero the ledger, start the clock at g_cfg.clk_* */
@@ -154,8 +163,6 @@ void v_env_reset(void);       /* zero the ledger, start the clock at g_cfg.clk_*
 /* current instant of the model clock (no advance) */
 static inline uint64_t v_now_s(void) { return g_led.clk_s; }
 static inline uint64_t v_now_ms(void) { return g_led.clk_ms; }
-/* value the next clock read will return, given the ledger before it */
-static inline uint64_t v_next_s(uint32_t reads0, uint64_t s0) { return s0 + g_cfg.clk_adv_s[reads0 % V_NCLK]; }
        /* zero the ledger, start the clock at g_cfg.clk_* */
 
 #endif
